@@ -384,6 +384,48 @@ impl Act {
             self.meth(cx, clo);
         }
     }
+
+    // macro forms that address the running actor through its own `cx` (closure arms: they name `Self`)
+    fn self_call_closure(&mut self, cx: CX![], clo: Clo) {
+        call!([cx], |this, cx| this.meth(cx, clo));
+    }
+    fn self_ret_to(&mut self, cx: CX![], clo: Clo) -> Ret<u32> {
+        ret_to!([cx], |this, cx, m: Option<u32>| this.meth_ret(cx, clo, m))
+    }
+    fn self_ret_some_to(&mut self, cx: CX![], clo: Clo) -> Ret<u32> {
+        ret_some_to!([cx], |this, cx, m: u32| this.meth_some(cx, clo, m))
+    }
+    fn self_fwd_to(&mut self, cx: CX![]) -> Fwd<Msg> {
+        fwd_to!([cx], |this, cx, m: Msg| this.meth_fwd(cx, m))
+    }
+}
+
+// A Ret handler built with ret_some_do!: the macro's closure only sees Some(v); the `None` case (the Ret was
+// dropped) is the Drop of the captured state -- same events, same order
+struct RetBody {
+    r: u32,
+    cv: Vec<(u32, Handle)>,
+    body: Rc<Vec<Act_>>,
+    fired: bool,
+}
+impl RetBody {
+    fn fire(&mut self, m: Option<u32>) {
+        self.fired = true;
+        log_ret(self.r, &m);
+        let mut fr = Frame {
+            loc: std::mem::take(&mut self.cv),
+            die: false,
+        };
+        let body = self.body.clone();
+        interp(&body, &mut Ctx::None, &mut fr);
+    }
+}
+impl Drop for RetBody {
+    fn drop(&mut self) {
+        if !self.fired {
+            self.fire(None);
+        }
+    }
 }
 
 // ---------------------------------------------------------------------------------------------
@@ -614,9 +656,124 @@ fn filter_of(lvls: &[u32]) -> LogFilter {
 }
 
 fn interp(acts: &[Act_], ctx: &mut Ctx<'_, '_>, fr: &mut Frame) {
-    for a in acts {
-        do_act(a, ctx, fr);
+    let mut i = 0;
+    while i < acts.len() {
+        if i + 1 < acts.len() && fused_create(&acts[i], &acts[i + 1], ctx, fr) {
+            i += 2;
+            continue;
+        }
+        do_act(&acts[i], ctx, fr);
+        i += 1;
     }
+}
+
+fn is_bound(fr: &Frame, h: u32) -> bool {
+    with_handle(fr, h, |hv| hv.is_some())
+}
+
+// The creation form is a function of the actor id (the model has one semantics for all of them):
+//   actor  a%4: 0 actor_new!   1 ActorOwn::new(core, notify, parent_id)   2 actor!(c, Type::init(..), n)   3 actor!(c, <Type>::init(..), n)
+//   slabadd a%4: 0,2 ActorOwnSlab::add   1 actor_in_slab!(self.slab, cx, Type::init(..), n)   3 actor_in_slab!(.., <Type>::init(..), n)
+// The macro forms that create AND queue the first init call apply when the creation is directly followed by
+// `callprep` on the fresh handle (default capture class, handle not captured by the init closure, not bound before).
+fn fused_create(first: &Act_, second: &Act_, ctx: &mut Ctx<'_, '_>, fr: &mut Frame) -> bool {
+    let (h, a, n, slab) = match first {
+        Act_::Actor(h, a, n) => (*h, *a, n, false),
+        Act_::SlabAdd(h, a, n) => (*h, *a, n, true),
+        _ => return false,
+    };
+    let (ready, c) = match second {
+        Act_::CallPrep(h2, ready, c) if *h2 == h => (*ready, *c),
+        _ => return false,
+    };
+    let form = a % 4;
+    let sp = spec(c);
+    if !(form == 3 || (form == 2 && !slab) || (form == 1 && slab)) {
+        return false;
+    }
+    if !default_pad(&sp) || sp.caps.contains(&h) || is_bound(fr, h) || ACTORS.with(|s| s.borrow().contains(&a)) {
+        return false;
+    }
+    if slab {
+        if !matches!(ctx, Ctx::Meth(_, _)) {
+            return false;
+        }
+    } else if ctx.core().is_none() {
+        return false;
+    }
+    let notify = make_notifier(a, n, fr);
+    ACTORS.with(|s| s.borrow_mut().insert(a));
+    // evaluated by the macros AFTER the actor exists, as the argument of the init call
+    macro_rules! init_clo {
+        () => {{
+            ev(format!("actor {}", a));
+            created(LK_NOTIFY, a);
+            ev(format!("ownnew {}", a));
+            let clo = make_call(c, fr);
+            ev(format!("target {} {} 1", clo.guard.uid, a));
+            sub(&clo, 'm');
+            clo
+        }};
+    }
+    if slab {
+        let pid = match ctx {
+            Ctx::Meth(_, st) => st.id,
+            _ => unreachable!(),
+        };
+        let actor = match ctx {
+            Ctx::Meth(cx, st) => {
+                let mk = |fr: &mut Frame| {
+                    ev(format!("actor {}", a));
+                    created(LK_NOTIFY, a);
+                    ev(format!("slabadd {} {}", pid, a));
+                    let clo = make_call(c, fr);
+                    ev(format!("target {} {} 1", clo.guard.uid, a));
+                    sub(&clo, 'm');
+                    clo
+                };
+                if form == 1 {
+                    actor_in_slab!(st.slab, cx, Act::prep(a, mk(fr), ready), notify)
+                } else {
+                    actor_in_slab!(st.slab, cx, <Act>::prep(a, mk(fr), ready), notify)
+                }
+            }
+            _ => unreachable!(),
+        };
+        bind(h, Handle::Act(a, actor));
+    } else {
+        let own = match ctx {
+            Ctx::Stk(s) => {
+                if form == 2 {
+                    actor!(s, Act::prep(a, init_clo!(), ready), notify)
+                } else {
+                    actor!(s, <Act>::prep(a, init_clo!(), ready), notify)
+                }
+            }
+            Ctx::Meth(cx, _) => {
+                if form == 2 {
+                    actor!(cx, Act::prep(a, init_clo!(), ready), notify)
+                } else {
+                    actor!(cx, <Act>::prep(a, init_clo!(), ready), notify)
+                }
+            }
+            Ctx::Prep(cx, _) => {
+                if form == 2 {
+                    actor!(cx, Act::prep(a, init_clo!(), ready), notify)
+                } else {
+                    actor!(cx, <Act>::prep(a, init_clo!(), ready), notify)
+                }
+            }
+            Ctx::None => unreachable!(),
+        };
+        bind(
+            h,
+            Handle::Own(OwnH {
+                tag: OwnTag(a),
+                own,
+            }),
+        );
+    }
+    true
 }
 
 fn do_act(act: &Act_, ctx: &mut Ctx<'_, '_>, fr: &mut Frame) {
@@ -629,7 +786,11 @@ fn do_act(act: &Act_, ctx: &mut Ctx<'_, '_>, fr: &mut Frame) {
             sub(&clo, 'm');
             let sp = spec(*c);
             let core = ctx.core().unwrap();
-            pads::dispatch(sp.size, sp.align, SiteDefer { core, clo });
+            if default_pad(&sp) && sp.id % 2 == 1 {
+                call!([core], |s| run_plain(s, clo));
+            } else {
+                pads::dispatch(sp.size, sp.align, SiteDefer { core, clo });
+            }
         }
         Act_::DeferD(c) => {
             let clo = make_clo(*c, fr);
@@ -794,11 +955,17 @@ fn do_act(act: &Act_, ctx: &mut Ctx<'_, '_>, fr: &mut Frame) {
                 return bad(10);
             }
             let notify = make_notifier(*a, n, fr);
-            let own = match ctx {
-                Ctx::Stk(s) => actor_new!(s, Act, notify),
-                Ctx::Meth(cx, _) => actor_new!(cx, Act, notify),
-                Ctx::Prep(cx, _) => actor_new!(cx, Act, notify),
-                Ctx::None => unreachable!(),
+            let own = if *a % 4 == 1 {
+                // the plain function behind the macros
+                let parid = ctx.log_id();
+                ActorOwn::<Act>::new(ctx.core().unwrap(), notify, parid)
+            } else {
+                match ctx {
+                    Ctx::Stk(s) => actor_new!(s, Act, notify),
+                    Ctx::Meth(cx, _) => actor_new!(cx, Act, notify),
+                    Ctx::Prep(cx, _) => actor_new!(cx, Act, notify),
+                    Ctx::None => unreachable!(),
+                }
             };
             ACTORS.with(|s| s.borrow_mut().insert(*a));
             ev(format!("actor {}", a));
@@ -822,7 +989,21 @@ fn do_act(act: &Act_, ctx: &mut Ctx<'_, '_>, fr: &mut Frame) {
             sub(&clo, 'm');
             let sp = spec(*c);
             if default_pad(&sp) {
-                call!([actor], meth(clo));
+                // the macro arm is a function of the closure id; the [cx] arms need the target to be the running actor
+                let v = sp.id % 4;
+                match ctx {
+                    Ctx::Meth(cx, st) if v == 2 && st.id == aid => call!([cx], meth(clo)),
+                    Ctx::Meth(cx, st) if v == 3 && st.id == aid => st.self_call_closure(cx, clo),
+                    Ctx::Prep(cx, a) if v >= 2 && *a == aid => call!([cx], meth(clo)),
+                    _ => {
+                        if v == 1 && ctx.core().is_some() {
+                            let core = ctx.core().unwrap();
+                            call!([actor, core], meth(clo));
+                        } else {
+                            call!([actor], meth(clo));
+                        }
+                    }
+                }
             } else {
                 pads::dispatch(sp.size, sp.align, SiteCall { actor, clo });
             }
@@ -838,7 +1019,21 @@ fn do_act(act: &Act_, ctx: &mut Ctx<'_, '_>, fr: &mut Frame) {
             let sp = spec(*c);
             let ready = *ready;
             if default_pad(&sp) {
-                call!([actor], Act::prep(a, clo, ready));
+                let v = sp.id % 4;
+                match ctx {
+                    Ctx::Prep(cx, me) if v == 3 && *me == a => call!([cx], Act::prep(a, clo, ready)),
+                    Ctx::Prep(cx, me) if v == 2 && *me == a => call!([cx], <Act>::prep(a, clo, ready)),
+                    _ => {
+                        if v == 1 {
+                            call!([actor], <Act>::prep(a, clo, ready));
+                        } else if v == 2 && ctx.core().is_some() {
+                            let core = ctx.core().unwrap();
+                            call!([actor, core], Act::prep(a, clo, ready));
+                        } else {
+                            call!([actor], Act::prep(a, clo, ready));
+                        }
+                    }
+                }
             } else {
                 pads::dispatch(
                     sp.size,
@@ -1001,14 +1196,27 @@ fn do_act(act: &Act_, ctx: &mut Ctx<'_, '_>, fr: &mut Frame) {
                         }
                     }
                     let body = body.clone();
-                    ret_do!(move |m: Option<u32>| {
-                        log_ret(r, &m);
-                        let mut fr = Frame {
-                            loc: cv,
-                            die: false,
+                    if r % 2 == 1 {
+                        let rb = RetBody {
+                            r,
+                            cv,
+                            body,
+                            fired: false,
                         };
-                        interp(&body, &mut Ctx::None, &mut fr);
-                    })
+                        ret_some_do!(move |v: u32| {
+                            let mut rb = rb;
+                            rb.fire(Some(v))
+                        })
+                    } else {
+                        ret_do!(move |m: Option<u32>| {
+                            log_ret(r, &m);
+                            let mut fr = Frame {
+                                loc: cv,
+                                die: false,
+                            };
+                            interp(&body, &mut Ctx::None, &mut fr);
+                        })
+                    }
                 }
                 RetK::To(ht, c) => {
                     let (actor, aid) = match handle_actor2(fr, *ht) {
@@ -1020,7 +1228,18 @@ fn do_act(act: &Act_, ctx: &mut Ctx<'_, '_>, fr: &mut Frame) {
                     let q = clo.guard.q.clone();
                     ev(format!("target {} {} 0", uid, aid));
                     retto = Some((uid, 0));
-                    let inner: Ret<u32> = ret_to!([actor], meth_ret(clo) as (u32));
+                    let inner: Ret<u32> = match ctx {
+                        Ctx::Meth(cx, st) if r % 3 == 2 && st.id == aid => st.self_ret_to(cx, clo),
+                        _ => {
+                            if r % 3 == 1 {
+                                Ret::to_actor(actor, move |this: &mut Act, cx: &mut Cx<'_, Act>, m: Option<u32>| {
+                                    this.meth_ret(cx, clo, m)
+                                })
+                            } else {
+                                ret_to!([actor], meth_ret(clo) as (u32))
+                            }
+                        }
+                    };
                     Ret::new(move |m: Option<u32>| {
                         log_ret(r, &m);
                         sub_later(&q, uid);
@@ -1040,7 +1259,18 @@ fn do_act(act: &Act_, ctx: &mut Ctx<'_, '_>, fr: &mut Frame) {
                     let q = clo.guard.q.clone();
                     ev(format!("target {} {} 0", uid, aid));
                     retto = Some((uid, 1));
-                    let inner: Ret<u32> = ret_some_to!([actor], meth_some(clo) as (u32));
+                    let inner: Ret<u32> = match ctx {
+                        Ctx::Meth(cx, st) if r % 3 == 2 && st.id == aid => st.self_ret_some_to(cx, clo),
+                        _ => {
+                            if r % 3 == 1 {
+                                Ret::some_to_actor(actor, move |this: &mut Act, cx: &mut Cx<'_, Act>, m: u32| {
+                                    this.meth_some(cx, clo, m)
+                                })
+                            } else {
+                                ret_some_to!([actor], meth_some(clo) as (u32))
+                            }
+                        }
+                    };
                     Ret::new(move |m: Option<u32>| {
                         log_ret(r, &m);
                         match m {
@@ -1103,7 +1333,16 @@ fn do_act(act: &Act_, ctx: &mut Ctx<'_, '_>, fr: &mut Frame) {
                     FwdH {
                         f,
                         to: Some((*c, aid)),
-                        fwd: fwd_to!([actor], meth_fwd() as (Msg)),
+                        fwd: match ctx {
+                            Ctx::Meth(cx, st) if f % 3 == 2 && st.id == aid => st.self_fwd_to(cx),
+                            _ => {
+                                if f % 3 == 1 {
+                                    Fwd::to_actor(actor, move |this: &mut Act, cx: &mut Cx<'_, Act>, m: Msg| this.meth_fwd(cx, m))
+                                } else {
+                                    fwd_to!([actor], meth_fwd() as (Msg))
+                                }
+                            }
+                        },
                     }
                 }
             };
